@@ -5,3 +5,8 @@ import QuillModel.Spsc.Proofs
 import QuillModel.Spsc.Api
 import QuillModel.Spsc.Wrap
 import QuillModel.Props.C01
+import QuillModel.Drivers.Util
+import QuillModel.Drivers.Spsc
+import QuillModel.Props.C09
+import QuillModel.Extracted
+import QuillModel.Obligations.Queue
